@@ -263,6 +263,45 @@ impl Strategy for Pb {
     }
 }
 
+/// Segments: thread u runs n of its steps, then the next segment ... (all schedules of two threads
+/// with a bounded number of context switches can be enumerated this way). Threads that are
+/// blocked (waiting for the setup thread) do not consume their segment.
+pub struct Segments {
+    segs: Vec<(usize, usize)>,
+    i: usize,
+    used: usize,
+}
+
+impl Strategy for Segments {
+    fn pick(&mut self, pt: &Point) -> usize {
+        while self.i < self.segs.len() {
+            let (u, n) = self.segs[self.i];
+            if self.used >= n || (u < pt.gone.len() && pt.gone[u]) {
+                self.i += 1;
+                self.used = 0;
+                continue;
+            }
+            if pt.runnable.contains(&u) {
+                self.used += 1;
+                return u;
+            }
+            // blocked: let somebody who is not part of the plan run (setup thread)
+            let planned: Vec<usize> = self.segs[self.i..].iter().map(|s| s.0).collect();
+            for t in pt.runnable {
+                if !planned.contains(t) {
+                    return *t;
+                }
+            }
+            return pt.runnable[0];
+        }
+        if pt.cur_runnable {
+            pt.cur
+        } else {
+            pt.runnable[0]
+        }
+    }
+}
+
 fn parse_seq(v: &Value) -> Vec<(usize, bool)> {
     v.as_array()
         .map(|a| {
@@ -323,6 +362,14 @@ pub fn from_json(v: &Value, nthreads: usize) -> Box<dyn Strategy> {
                 .unwrap_or_default(),
             vsteps: 0,
             running: None,
+        }),
+        "segs" => Box::new(Segments {
+            segs: v["segs"]
+                .as_array()
+                .map(|a| a.iter().map(|p| (p[0].as_u64().unwrap() as usize, p[1].as_u64().unwrap() as usize)).collect())
+                .unwrap_or_default(),
+            i: 0,
+            used: 0,
         }),
         "solo" => Box::new(Solo {
             base: from_json(&v["base"], nthreads),
